@@ -12,15 +12,24 @@ const SWEEP_END: u32 = 10_000_002;
 
 fn obs(o: &Ontology, probes: &[u32], queries: &[String]) -> V {
     let mut found = vec![];
-    for id in 0..SWEEP_END {
-        if let Some(t) = o.hpo(HpoTermId::from(id)) {
-            found.push(V::T(vec![n(id), n(t.id().as_u32()), bytes(t.name().as_bytes())]));
+    // the other public way to a term, HpoTerm::try_new, must answer exactly like Ontology::hpo: a disagreement
+    // is recorded as an answer that carries an id nobody asked for (which the statement rejects)
+    let mut both = |id: u32, found: &mut Vec<V>| {
+        let a = o.hpo(HpoTermId::from(id));
+        let b = hpo::HpoTerm::try_new(o, HpoTermId::from(id)).ok();
+        match (a, b) {
+            (Some(t), Some(t2)) if t.id() == t2.id() && t.name() == t2.name() => {
+                found.push(V::T(vec![n(id), n(t.id().as_u32()), bytes(t.name().as_bytes())]));
+            }
+            (None, None) => {}
+            _ => found.push(V::T(vec![n(id), n(u32::MAX), bytes(b"HpoTerm::try_new and Ontology::hpo disagree")])),
         }
+    };
+    for id in 0..SWEEP_END {
+        both(id, &mut found);
     }
     for id in probes {
-        if let Some(t) = o.hpo(HpoTermId::from(*id)) {
-            found.push(V::T(vec![n(*id), n(t.id().as_u32()), bytes(t.name().as_bytes())]));
-        }
+        both(*id, &mut found);
     }
     let mut iter_ids: Vec<u32> = o.iter().map(|t| t.id().as_u32()).collect();
     iter_ids.sort();
